@@ -311,8 +311,17 @@ Proof.
     specialize (IH2 s1 Hn2 Hp2 Hk1 Hj1 Ha1). unfold Post in *. rewrite <- He1. exact IH2.
   - cbn in Hn, Hp. set (dl := if ab then t else now s + t).
     set (s1 := set_deadline s dl).
-    assert (Hk1 : K s1) by (intros x Hx; cbn in Hx; discriminate).
-    assert (Hj1 : J s1) by (left; unfold Stale; reflexivity).
+    assert (Hk1 : K s1).
+    { intros x Hx. subst s1. unfold set_deadline in Hx. cbn in Hx.
+      destruct (opt_in (timed_out s) (deadlines s)); [|discriminate]. cbn. now apply Hk. }
+    assert (Hj1 : J s1).
+    { subst s1. unfold J, Stale, Due, set_deadline. cbn.
+      destruct (opt_in (timed_out s) (deadlines s)) eqn:Ei; [|left; reflexivity]. right.
+      destruct Hj as [Hs|(a & Har & Hal)]; [unfold Stale in Hs; congruence|].
+      destruct (timed_out s) as [x|] eqn:Et; [|discriminate]. cbn in Ei.
+      destruct (minl_le_mem _ _ Ei) as (m & Em & Hm). rewrite Em.
+      pose proof (Hk x Et) as Hx.
+      destruct (dl <? m) eqn:El; [exists dl; split; auto; apply Z.ltb_lt in El; lia|exists a; auto]. }
     assert (Ha1 : ArmedInv s1) by (now apply set_deadline_inv).
     specialize (IH s1 Hn Hp Hk1 Hj1 Ha1). pose proof (eval_stack body s1) as Hst.
     destruct (eval body s1) as [r s2]. cbn [fst snd] in *.
@@ -472,3 +481,9 @@ Proof.
   - repeat split; auto; try discriminate.
   - repeat split; auto; try discriminate.
 Qed.
+
+(* entering a block forgets a stale record of an earlier timeout - but not the record of an enclosing block that is still
+   active: its cancellation is being delivered, and this block was entered while it unwinds (a finally clause) *)
+Lemma entry_keeps_inflight_record s d :
+  timed_out (set_deadline s d) = if opt_in (timed_out s) (deadlines s) then timed_out s else None.
+Proof. reflexivity. Qed.
